@@ -148,7 +148,20 @@ func TestC09(t *testing.T) {
 		sameIDOther := false
 		for i := 0; i < n; i++ {
 			var k *hello.Key
-			switch rapid.IntRange(0, 3).Draw(t, "other_kind") {
+			switch rapid.IntRange(0, 4).Draw(t, "other_kind") {
+			case 4: // the target's own key pair re-issued under another config (other id / name / suites)
+				id := T.ID
+				if rapid.Bool().Draw(t, "samepriv_otherid") {
+					id = T.ID + uint8(1+rapid.IntRange(0, 253).Draw(t, "samepriv_idoff"))
+				} else {
+					sameIDOther = true
+				}
+				name := T.PublicName
+				if id == T.ID || rapid.Bool().Draw(t, "samepriv_othername") {
+					name = "reissued." + T.PublicName[:min(len(T.PublicName), 200)]
+				}
+				k, _ = hello.NewKey(T.Priv.Bytes(), id, name, drawKey(t, fmt.Sprintf("o%d", i), int(id), name).Suites)
+				shape = append(shape, "same_private_key_other_config")
 			case 0: // same id, same suites
 				k = drawKey(t, fmt.Sprintf("o%d", i), int(T.ID), T.PublicName)
 				k, _ = hello.NewKey(k.Priv.Bytes(), T.ID, T.PublicName, T.Suites)
